@@ -55,6 +55,12 @@ theorem obl_census : censusOk = true := by decide
 theorem good_std : Good genStd = true := by decide
 theorem good_nostd : Good genNoStd = true := by decide
 
+/-- all obligations on the regenerated facts in one statement (DESIGN App. C: `C16_generated_consts`) -/
+theorem C16_generated_consts :
+    Good genStd = true ∧ Good genNoStd = true ∧ funnelsOk = true ∧ cloneFunnelsPresent = true ∧
+    censusOk = true :=
+  ⟨good_std, good_nostd, obl_funnels, obl_clone_funnels_present, obl_census⟩
+
 /-! ## the guard, for every word -/
 
 /-- **C16 (guard), parametric in the facts.**  For every 64-bit count word: the clone ends in a
